@@ -20,6 +20,20 @@ CLAIMS = {
                   "len(Batcher) is proved for the integer formula in the code; data sizes beyond memory are reached only through range().",
              tech="Coq proof: finite-domain evaluation lifted by forallb_forall; induction; uniqueness of sorted permutation / batch decomposition; differential correspondence",
              ref="DESIGN.md §4 C19"),
+ "C10": dict(text="Coq theorems for all span collections and all 4x4 relation combinations: construction rule, membership formula and "
+             "NoDup for & | - ^, the nine comparison predicates as quantified membership statements, geometric meaning of the four "
+             "relations; tied to /repo by differential runs over an exhaustive small universe (thorough) / a sample of it (quick) plus "
+             "random larger sets, both constructor paths, force_no_dup_check and copy()+relation reassignment.",
+             note="Results are compared as sorted span lists (the property is about membership, not order). Coordinates are ints.",
+             tech="Coq proof: list induction / existsb-forallb characterisations; differential correspondence (small-scope exhaustive + random)",
+             ref="DESIGN.md §4 C10"),
+ "C16": dict(text="Coq theorems for all interval lists and all keys: construction succeeds iff all start<=end and no two intervals share a "
+             "point; lookup sound and complete (hence unique), KeyError iff no interval contains the key, 'in' agrees, len, iteration is a "
+             "permutation in strictly ascending order; tied to /repo by exhaustive small interval sets x all probe points and random sets.",
+             note="bisect_left is modelled as CPython's binary search (proved correct on non-decreasing lists); sorted() stability assumed. "
+                  "Coordinates are ints in the model; the implementation also receives them as equal floats.",
+             tech="Coq proof: binary-search invariant, stable-sort specification, disjointness argument; differential correspondence",
+             ref="DESIGN.md §4 C16"),
 }
 ALL = ["C%02d" % i for i in range(1, 21)]
 def chk(pid, c):
